@@ -9,6 +9,9 @@ import (
 	"flag"
 	"fmt"
 	"os"
+	"runtime"
+	"strings"
+	"time"
 
 	"github.com/sheerbytes/sheerbytes/verifharness/internal/hx"
 )
@@ -27,6 +30,8 @@ func main() {
 	flag.Uint64Var(&cfg.seed, "seed", 1, "PRNG seed")
 	flag.StringVar(&cfg.tier, "tier", "quick", "quick|thorough")
 	flag.StringVar(&cfg.out, "out", "", "output directory")
+	var deadline int
+	flag.IntVar(&deadline, "deadline", 0, "seconds after which a run that has not finished is reported as hung (0 = none)")
 	flag.StringVar(&cfg.replay, "replay", "", "replay file (json) to re-run instead of generating")
 	flag.Parse()
 	if flag.NArg() != 1 || cfg.out == "" {
@@ -40,6 +45,41 @@ func main() {
 	}
 	if err := os.MkdirAll(cfg.out, 0755); err != nil {
 		panic(err)
+	}
+	// Global deadline: a run that does not come back (the code under test is
+	// wedged: a lock held for ever, a goroutine waiting for something that never
+	// comes) is reported as a violation with the stuck goroutines as the replay,
+	// instead of being killed from outside without a verdict.
+	if deadline > 0 {
+		go func() {
+			time.Sleep(time.Duration(deadline) * time.Second)
+			buf := make([]byte, 1<<20)
+			buf = buf[:runtime.Stack(buf, true)]
+			var stuck []string
+			for _, g := range strings.Split(string(buf), "\n\n") {
+				if strings.Contains(g, "sheerbytes/internal/") || strings.Contains(g, "sheerbytes/pkg/") || strings.Contains(g, "sheerbytes/cmd/") {
+					if len(g) > 1500 {
+						g = g[:1500]
+					}
+					stuck = append(stuck, g)
+				}
+				if len(stuck) >= 12 {
+					break
+				}
+			}
+			rep := hx.Current
+			if rep == nil {
+				rep = hx.NewReport(flag.Arg(0))
+			}
+			func() {
+				defer func() { recover() }()
+				rep.Violate("hang:harness-deadline", fmt.Sprintf("the run did not finish within %d s; %d goroutine(s) are stuck inside the repository's code", deadline, len(stuck)),
+					map[string]any{"seed": cfg.seed, "tier": cfg.tier, "stuck_goroutines": stuck})
+			}()
+			rep.CaseIndex = nil
+			rep.Write(cfg.out)
+			os.Exit(3)
+		}()
 	}
 	rep := run(cfg)
 	rep.Write(cfg.out)
